@@ -6,7 +6,8 @@ Everything here is about *cells* (the byte strings of one CSV column, in row ord
 
 * `Encodes c cells` : the chunk `c` handed to an importer holds exactly the cells `cells` (this is what the CSV reader
   guarantees, property C05) — the only place where offsets appear, so that the kernel theorems can speak about memory.
-* categorical      : `lookup cats cell` = value of the key that equals the *whole* cell.
+* categorical      : `lookup cats cell` = value of the key that equals the *whole* cell; a cell that equals no key makes the
+                     import raise (`catColumn`; fix NC06d).
 * leaky categorical: code `-1` and the cell text in the `_freetext` companion when no key equals the cell.
 * bool             : blank-trimmed, case-insensitive membership in the documented spellings.
 * numeric          : the validation-mode table `numericCell`.
@@ -47,8 +48,24 @@ inductive EncodesAll : List Chunk → List (List Bytes) → Prop
 def lookup (cats : List (Bytes × Int)) (cell : Bytes) : Option Int :=
   (cats.find? (fun kv => kv.1 == cell)).map (·.2)
 
-/-- what `CategoricalImporter` stores (as found, NC06d: `0` when no key equals the cell) -/
+/-- what the staging array of `categorical_transform` holds for a row: the key's value, and the `0` the array was created
+    with when no key equals the cell. As found (NC06d) `CategoricalImporter` stored exactly this; with fix NC06d a chunk with
+    such a row is never written (`catColumn`). -/
 def catCode (cats : List (Bytes × Int)) (cell : Bytes) : Int := (lookup cats cell).getD 0
+
+/-- **a categorical column without free text**: the value of the key each cell equals, row by row; `none` (the import
+    raises) as soon as one cell equals no key -/
+def catColumn (cats : List (Bytes × Int)) : List Bytes → Option (List Int)
+  | [] => some []
+  | cell :: rest =>
+    match lookup cats cell, catColumn cats rest with
+    | some v, some vs => some (v :: vs)
+    | _, _ => none
+
+/-- number of the first cell that equals no key -/
+def firstNoKey (cats : List (Bytes × Int)) : List Bytes → Option Nat
+  | [] => none
+  | cell :: rest => if (lookup cats cell).isNone then some 0 else (firstNoKey cats rest).map (· + 1)
 
 /-- what `LeakyCategoricalImporter` stores: the value, or the out-of-range code `-1` -/
 def leakyCode (cats : List (Bytes × Int)) (cell : Bytes) : Int := (lookup cats cell).getD (-1)
